@@ -133,17 +133,17 @@ func HarnessC18() {
 // registry package) and entries without versions, followed by every accessor: none of it panics.
 var c19PkgAddrs = []string{"git::https://h/p0.git", "https://h/a.tgz", "git::https://h/p0.git//sub", "not an address", ""}
 var c19RegAddrs = []string{"hashicorp/subnets/cidr", "registry.terraform.io/hashicorp/subnets/cidr", "example.com/a/b/c", "a/b", ""}
-var c19Versions = []string{"1.0.0", "1.1.0", "v1.0.0", "one", ""}
+var c19Versions = []string{"1.0.0", "one", ""}
 
 func HarnessC19Manifest() {
 	envReset()
 	envMkdir("/w", 0755, 100)
 	envMkdir(wTarget, 0755, 100)
 	envChdir("/w")
-	m := manifestRoot{FormatVersion: uint64(verif.Choose("format", 3))}
+	m := manifestRoot{FormatVersion: 1}
 	for i := 0; i < verif.Param("nPkgs", 1); i++ {
-		p := manifestRemotePackage{SourceAddr: c19PkgAddrs[verif.Choose("pkg.addr", len(c19PkgAddrs))], LocalDir: []string{"a", "b", "", "..", "a/b"}[verif.Choose("pkg.dir", 5)]}
-		if verif.Bool("pkg.meta") {
+		p := manifestRemotePackage{SourceAddr: c19PkgAddrs[verif.Choose("pkg.addr", len(c19PkgAddrs))], LocalDir: []string{"a", "", ".."}[verif.Choose("pkg.dir", 3)]}
+		if i == 0 {
 			p.Meta = manifestPackageMeta{GitCommitID: "id", GitCommitMessage: "msg"}
 		}
 		m.Packages = append(m.Packages, p)
@@ -152,7 +152,7 @@ func HarnessC19Manifest() {
 		r := manifestRegistryMeta{SourceAddr: c19RegAddrs[verif.Choose("reg.addr", len(c19RegAddrs))]}
 		switch verif.Choose("reg.versions", 4) {
 		case 1:
-			r.Versions = map[string]manifestRegistryVersion{c19Versions[verif.Choose("reg.version", len(c19Versions))]: {SourceAddr: c19PkgAddrs[verif.Choose("reg.target", len(c19PkgAddrs))]}}
+			r.Versions = map[string]manifestRegistryVersion{c19Versions[verif.Choose("reg.version", len(c19Versions))]: {SourceAddr: c19PkgAddrs[verif.Choose("reg.target", 2)*3]}}
 		case 2:
 			r.Versions = map[string]manifestRegistryVersion{"1.0.0": {SourceAddr: "git::https://h/p0.git", Deprecation: &RegistryVersionDeprecation{Version: "1.0.0", Reason: "r", Link: "l"}}}
 		case 3:
